@@ -31,6 +31,7 @@ type EvalCtx struct {
 	fr0           *frame
 	lazyFn        *ssa.Function  // closure whose locals / parameters are unknowns (last-call rule)
 	oldBinds      map[string]Val // bindings used inside old(...) in that mode
+	atcall        *EvalCtx       // where atcall(e) is evaluated (hand-over site); nil inside the literal's own unit
 }
 
 func (fe *FnExec) ctxFor(fr *frame, st *State) *EvalCtx {
@@ -133,7 +134,10 @@ func (c *EvalCtx) eval(e ast.Expr) Val {
 		case token.SUB:
 			return IntV{sx("-", "0", fe.intTerm(c.eval(x.X)))}
 		case token.AND:
-			return c.eval(x.X)
+			// &x: the address of a local / captured variable (identity only)
+			n := *c
+			n.wantAddr = true
+			return n.eval(x.X)
 		}
 	case *ast.StarExpr:
 		v := c.eval(x.X)
@@ -271,6 +275,9 @@ func (c *EvalCtx) localByName(name string) (Val, bool) {
 		if fv.Name() == base {
 			p := c.fe.regs[fv]
 			if pp, ok := p.(PtrV); ok {
+				if c.wantAddr {
+					return pp, true
+				}
 				return c.fe.load(c.st, pp), true
 			}
 		}
@@ -576,6 +583,12 @@ func (c *EvalCtx) evalCall(x *ast.CallExpr) Val {
 			}
 		}
 		return c.fail("%s(%d): the closure has not been passed to a callee yet", fname, k)
+	case "atcall":
+		// atcall(e): the value e had where the function literal was handed to its callee (a constant for the literal)
+		if c.atcall != nil {
+			return c.atcall.eval(args[0])
+		}
+		return IntV{fe.declareOnce("atcall."+types.ExprString(args[0]), "Int")}
 	case "cur":
 		// cur(x): the current value of local / parameter x (parameters otherwise denote their entry value)
 		if id, ok := args[0].(*ast.Ident); ok && c.fr != nil {
